@@ -4,6 +4,7 @@ import Driver.BreakerAcc
 import Driver.PoolAcc
 import Driver.LockedAcc
 import Driver.SimpleAdderAcc
+import Driver.FineAcc
 /-!
 Generic run loop for trace acceptors.  Input: runs separated by `reset …` lines and closed by `end`.
 Output per run: `ACCEPT <run> steps=<n> <summary>` or `REJECT <run> line=<n> :: <line> :: <reason>`;
@@ -17,6 +18,8 @@ structure Acceptor (σ : Type) where
   pc : σ → Nat → String                      -- program counter name of thread t before the step (coverage)
   summary : σ → String
   stuck : σ → List String                    -- threads the model believes to be mid-operation at `end` (informational)
+  extraCov : σ → List String := fun _ => []  -- further coverage names produced by the line just accepted (silent steps, branches)
+  extraSteps : σ → Nat := fun _ => 0         -- model steps without a trace line of their own executed by the line just accepted
 
 partial def acceptLoop {σ : Type} (A : Acceptor σ) (h : IO.FS.Stream) (out : IO.FS.Stream) : IO Unit := do
   let rec go (st : σ) (run lineNo : Nat) (active skipping : Bool) (accepted rejected steps : Nat)
@@ -51,7 +54,9 @@ partial def acceptLoop {σ : Type} (A : Acceptor σ) (h : IO.FS.Stream) (out : I
             ((name, c + 1) :: cov.filter (·.1 != name), steps + 1)
           | _ => (cov, steps)
         match A.line st toks with
-        | .ok st' => go st' run (lineNo + 1) active false accepted rejected steps' cov'
+        | .ok st' =>
+          let cov'' := (A.extraCov st').foldl (fun cv name => (name, (cv.lookup name).getD 0 + 1) :: cv.filter (·.1 != name)) cov'
+          go st' run (lineNo + 1) active false accepted rejected (steps' + A.extraSteps st') cov''
         | .error e =>
           out.putStrLn s!"REJECT {run} line={lineNo + 1} :: {line.trimAscii} :: {e}"
           go st run (lineNo + 1) active true accepted (rejected + 1) steps' cov'
@@ -98,6 +103,15 @@ def sadderAcceptor : Acceptor SimpleAdderAcc.AccSt where
   pc := fun st t => SimpleAdderAcc.pcName (SimpleAdderAcc.getL st t)
   summary := fun st => s!"steps={st.steps} applied={st.g.applied}"
   stuck := fun _ => []
+
+def fineAcceptor : Acceptor FineAcc.AccSt where
+  init := FineAcc.initSt
+  line := FineAcc.processLine
+  pc := FineAcc.pcName
+  summary := FineAcc.summary
+  stuck := FineAcc.stuck
+  extraCov := fun st => st.extra
+  extraSteps := fun st => st.nsilent
 
 def poolAcceptor : Acceptor PoolAcc.AccSt where
   init := PoolAcc.initSt
